@@ -22,7 +22,7 @@ What is only STATED (`…_stmt`, tied by the correspondence run and the spec ora
 catalogue spec over whole deviation-free histories, the invariant over all handlers, all-or-none for accepted /
 rolled-back template updates.
 -/
-import Kap.Proofs.C14Inv
+import Kap.Proofs.C14Tmpl
 namespace Kap.Props.C14
 open Kap.C14
 
@@ -105,6 +105,40 @@ theorem delete_removes_and_stops (w : World) (id : String) (h : ExecInv w) :
       simp only [view_tasks] at this
       rw [this]; simp [View.del]
   exact ⟨hnone, View.EI.not_exec hinv hnone⟩
+
+/-! ### Template update: all or none -/
+
+/-- **An accepted template update changes ALL tasks created from the template** (and no other task): in a state
+where the association table is accurate (`AssocInv`) and the ID index enumerates the stored tasks (`Dom`), a template
+update answered 2xx leaves every task whose template it is re-synchronised with the new definition — the spec's
+`resync` — and every other task untouched. By induction over the forward loop of updateAllAssociatedTasks. -/
+theorem template_update_accepted_changes_all (env : Env) (fail : List String) (w : World) (id newId script os : String)
+    (hos : w.store.tmpls id = some os) (hid : id ≠ "") (hdom : Dom w.store) (hassoc : AssocInv w.view)
+    (hok : (updateTemplate env fail w id newId script).2 = .ok) :
+    (updateTemplate env fail w id newId script).1.store.tasks =
+      fun i => match w.store.tasks i with
+        | some t => if t.tmpl = id then
+            some (resync env os (if newId ≠ "" then newId else id) (if script ≠ "" then script else os) t) else some t
+        | none => none :=
+  updateTemplate_accepted_tasks env fail w id newId script os hos hid hdom hassoc hok
+
+/-- **All or none** (the spec's predicate `allOrNone`, the one the driver evaluates on the real code's listings), for
+every template update that is NOT answered 500: accepted ⇒ all, rejected by validation ⇒ none. The excluded case is
+false of today's code: `rollback_keeps_new_dbrps_and_template` (finding template-update-rollback-incomplete). -/
+theorem template_update_all_or_none_partial (env : Env) (fail : List String) (w : World) (id newId script os : String)
+    (ids : List String)
+    (hos : w.store.tmpls id = some os) (hid : id ≠ "") (hdom : Dom w.store) (hassoc : AssocInv w.view)
+    (hresp : (updateTemplate env fail w id newId script).2 ≠ .fail) :
+    allOrNone env ids w.store.tasks (updateTemplate env fail w id newId script).1.store.tasks id os
+      (if newId ≠ "" then newId else id) (if script ≠ "" then script else os) = true :=
+  updateTemplate_allOrNone env fail w id newId script os ids hos hid hdom hassoc hresp
+
+/-- The full statement (no hypothesis on the answer) — FALSE of today's code, see above. -/
+def template_update_all_or_none_stmt : Prop :=
+  ∀ (env : Env) (fail : List String) (w : World) (id newId script os : String) (ids : List String),
+    w.store.tmpls id = some os → id ≠ "" → Dom w.store → AssocInv w.view →
+    allOrNone env ids w.store.tasks (updateTemplate env fail w id newId script).1.store.tasks id os
+      (if newId ≠ "" then newId else id) (if script ≠ "" then script else os) = true
 
 /-! ### Counterexamples: the repaired defects (snapshot order) and the recorded findings (today's code) -/
 
